@@ -99,6 +99,21 @@ def special_forms():
             out.append((n, b()))
         except Exception:
             pass
+    # every subscriptable generic of collections.abc / collections / builtins with every small arity, right or wrong
+    # (whatever the runtime lets one construct)
+    import collections
+    import collections.abc as cabc
+    gens = [(f'collections.abc.{n}', getattr(cabc, n)) for n in cabc.__all__
+            if hasattr(getattr(cabc, n), '__class_getitem__') and n != 'ByteString']     # (CPython warns on every isinstance)
+    gens += [(f'collections.{n}', getattr(collections, n)) for n in ('deque', 'defaultdict', 'OrderedDict', 'Counter', 'ChainMap')]
+    gens += [(t.__name__, t) for t in (list, dict, set, frozenset, tuple, type)]
+    for gname, g in gens:
+        for args, asrc in (((), '()'), ((int,), 'int'), ((int, str), 'int, str'), ((int, str, bytes), 'int, str, bytes'),
+                           ((int, str, bytes, float), 'int, str, bytes, float')):
+            try:
+                out.append((f'{gname}[{asrc}]', g[args if len(args) != 1 else args[0]]))
+            except Exception:
+                pass
     return out
 
 
